@@ -14,7 +14,8 @@ CONSTANTS Tier,          \* "quick" | "thorough"
           OutFile, BaseFile, StepBound
 
 \* ---- tokens are written as strings in the grammar and mapped to values here
-Special == ("0" :> IntN(0)) @@ ("1" :> IntN(1)) @@ ("2" :> IntN(2)) @@ ("3" :> IntN(3)) @@ ("5" :> IntN(5))
+Special == ("65536" :> IntN(65536)) @@ ("65537" :> IntN(65537)) @@ ("1000" :> IntN(1000)) @@ ("/f" :> NameV("f"))
+           @@ ("0" :> IntN(0)) @@ ("1" :> IntN(1)) @@ ("2" :> IntN(2)) @@ ("3" :> IntN(3)) @@ ("5" :> IntN(5))
            @@ ("6" :> IntN(6)) @@ ("7" :> IntN(7)) @@ ("9" :> IntN(9)) @@ ("-1" :> IntN(-1))
            @@ ("/x" :> NameV("x")) @@ ("/p" :> NameV("p")) @@ ("/add" :> NameV("add")) @@ ("/y" :> NameV("y"))
            @@ ("{" :> LBrace) @@ ("}" :> RBrace)
@@ -94,6 +95,31 @@ PickLook ==
           /\ UNCHANGED <<phase, s, u>>
        \/ /\ stim.n > 0
           /\ phase' = "start" /\ UNCHANGED <<stim, s, u>>
+\* ---- recursion and growth shapes against the real limits (C11, C01b)
+LimitShapes == {
+    <<"/f", "{", "f", "1", "}", "def", "f">>,                           \* self call, not in tail position
+    <<"/f", "{", "1", "f", "}", "def", "f">>,                           \* tail call that pushes
+    <<"/f", "{", "{", "f", "}", "exec", "1", "}", "def", "f">>,          \* recursion through exec
+    <<"/f", "{", "true", "{", "f", "}", "if", "1", "}", "def", "f">>,    \* recursion through if
+    <<"/f", "{", "1", "{", "f", "}", "repeat", "1", "}", "def", "f">>,   \* recursion through repeat
+    <<"/f", "{", "/f", "load", "exec", "1", "}", "def", "f">>,          \* recursion through load exec
+    <<"{", "currentdict", "begin", "}", "loop">>,                        \* begin in a loop
+    <<"{", "1", "}", "loop">>,                                            \* loop that pushes
+    <<"1", "{", "dup", "}", "loop">>,
+    <<"{", "mark", "}", "loop">>,
+    <<"0", "1", "1000", "{", "}", "for">>,                               \* for that pushes 1001 values
+    <<"0", "1", "1000", "{", "pop", "}", "for", "count">>,               \* long but balanced
+    <<"65537", "array">>, <<"65537", "string">>, <<"65537", "dict">>,
+    <<"65536", "array", "length">>, <<"65536", "string", "length">>,
+    <<"1000", "{", "1", "}", "repeat">>,
+    <<"{", "{", "}", "exec", "}", "loop">>                                \* never ends: cut by the step bound, not emitted
+}
+PickLimit ==
+    /\ Family = "limits"
+    /\ phase = "pick1"
+    /\ \E c \in LimitShapes : stim' = [stim EXCEPT !.mid = c]
+    /\ phase' = "start" /\ UNCHANGED <<s, u>>
+
 PickBudget ==
     /\ Family = "budget"
     /\ phase = "pick1"
@@ -109,7 +135,7 @@ Run == /\ phase = "run" /\ s.status = "running"
        /\ s' = IF s.nops > StepBound THEN Skip(s) ELSE Step(s)
        /\ u' = IF Family = "budget" /\ u.status = "running" THEN Step(u) ELSE u
        /\ UNCHANGED <<stim, phase>>
-Next == PickCtl \/ PickLook \/ PickBudget \/ Start \/ Run
+Next == PickCtl \/ PickLook \/ PickBudget \/ PickLimit \/ Start \/ Run
 
 Vector == [prog |-> Toks(Program(stim)), init |-> <<>>, maxops |-> s.maxops,
            status |-> s.status, errs |-> s.errs, ost |-> s.ost, dst |-> s.dst,
